@@ -132,6 +132,11 @@ def compile_code(
         options = CompileOptions(**options)
     if options is None:
         options = CompileOptions()
+    else:
+        import copy
+
+        # '# pytrapic:' directives are applied below: never to the caller's object
+        options = copy.copy(options)
 
     main_module = src[""] if isinstance(src, dict) else src
     if "pytrapic:" in main_module:
